@@ -858,6 +858,11 @@ func (prop) ExtraPhase(tier string, seed uint64, deadline time.Time) (*driver.Ex
 	er.Coverage["run_endings"] = ends
 	er.Coverage["histories_run_twice_with_identical_output"] = detChecks
 	er.Coverage["interpreter_sha256"] = sum
+	if len(er.Violations) == 0 {
+		if err := ifaceRacePhase(er, tier, seed, deadline); err != nil {
+			return nil, err
+		}
+	}
 	er.Coverage["components"] = "real: llgo compiler lowering of make/index/assign/delete/clear/len/range for 53 concrete map types (23 key kinds, 7 element kinds), llgo-compiled map runtime, hash and equality functions, type descriptors emitted by the compiler; stub: C rand (hash key material, range start positions) drawn from the history's seed, LLVM 14, bdwgc"
 	return er, nil
 }
@@ -867,6 +872,9 @@ func (prop) ReplayExtra(raw []byte) (string, string, error) {
 	var rp bReplay
 	if err := json.Unmarshal(raw, &rp); err != nil {
 		return "", "", err
+	}
+	if rp.Layer == "B-sched" {
+		return replaySched(raw)
 	}
 	if bLlgo == "" {
 		return "", "", fmt.Errorf("llgo could not be built here: layer B replays are not available")
